@@ -879,6 +879,43 @@ func (it *Interp) assumeAtom(a *PAtom, v bool) {
 			}
 		}
 	}
+	// sym != const at the edge of the symbol's range narrows the range
+	if a.Kind == PEQZ && !v && len(a.A.mons) <= 2 {
+		var at *IAtom
+		var coef *big.Int
+		k := new(big.Int)
+		okForm := true
+		for _, m := range a.A.mons {
+			if len(m.preds) > 0 {
+				okForm = false
+			}
+			if m.atom == nil {
+				k = m.c
+			} else if m.atom.Kind == ISym {
+				at, coef = m.atom, m.c
+			} else {
+				okForm = false
+			}
+		}
+		if okForm && at != nil && coef.CmpAbs(bigOne) == 0 {
+			val := new(big.Int).Neg(k)
+			if coef.Sign() < 0 {
+				val = new(big.Int).Set(k)
+			}
+			cur := it.curAtom(at)
+			lo, hi := cur.Lo, cur.Hi
+			if val.Cmp(lo) == 0 {
+				lo = new(big.Int).Add(lo, bigOne)
+			} else if val.Cmp(hi) == 0 {
+				hi = new(big.Int).Sub(hi, bigOne)
+			}
+			if lo.Cmp(cur.Lo) != 0 || hi.Cmp(cur.Hi) != 0 {
+				base := BaseSym(at)
+				it.bind[at] = SymInt(fmt.Sprintf("%s∈[%s,%s]", base.Name, lo, cstr(hi)), lo, hi)
+				it.narrowOf(it.bind[at].SingleAtom(), at)
+			}
+		}
+	}
 	// narrow the range of a symbolic integer compared with a constant:  B - A > 0 with B - A = c0 ± atom
 	if a.Kind == PLT {
 		d := a.B.Sub(a.A)
